@@ -13,11 +13,18 @@ import pay_common as pc
 
 
 def pick(got, rng):
-    # prefer behaviours in which a resolution reached the payer (the others end with HTLCs held)
-    a = [s for s in got if any(o["op"] in ("deliver", "dup", "restart") for o in s["ops"])]
-    b = [s for s in got if s not in a] if len(got) < 20000 else []
-    rng.shuffle(b)
-    return a + b[:max(20, len(a) // 8)]
+    # prefer behaviours in which a resolution reached the payer (the others end with HTLCs held), and among
+    # those the ones with a restart or a duplicate delivery
+    def has(s, *names):
+        return any(o["op"] in names for o in s["ops"])
+    a = [s for s in got if has(s, "restart") and has(s, "deliver")]
+    b = [s for s in got if has(s, "dup") and not has(s, "restart")]
+    c = [s for s in got if has(s, "deliver") and not has(s, "restart", "dup")]
+    d = [s for s in got if not has(s, "deliver")]
+    for x in (a, b, c, d):
+        rng.shuffle(x)
+    n = len(got)
+    return a[:n] + b[:max(50, len(a) // 2)] + c[:max(100, len(a))] + d[:max(30, len(a) // 6)]
 
 
 def _second_sent(r, k, recs):
